@@ -340,6 +340,16 @@ func c07ApplyDelta(u *unstructured.Unstructured, op c07Op) {
 	}
 }
 
+func c07DropNullSpec(u *unstructured.Unstructured) {
+	if spec, ok := u.Object["spec"].(map[string]any); ok {
+		for k, v := range spec {
+			if v == nil {
+				delete(spec, k)
+			}
+		}
+	}
+}
+
 // c07Pre is the state a sync step started from (for the monitors).
 type c07Pre struct {
 	Claim c07Obj
@@ -442,6 +452,15 @@ func c07Run(s c07Scn) (c07Obs, []Mon) {
 			}
 			if writes == nil {
 				writes = []c07Write{}
+			}
+			// The API server prunes null values of non-nullable fields on every write
+			// (apiextensions-apiserver defaulting.PruneNonNullableNullsWithoutDefaults);
+			// simstore keeps them. The only such null the syncers produce is a top-level
+			// spec field (compositionRevisionRef), and nothing reads it back within the
+			// same Sync, so pruning after the Sync is equivalent.
+			st.Mutate(c07ClaimGVK.GroupKind(), c07NS, c07ClaimName, c07DropNullSpec)
+			if n := c07XRNameOf(peekClaim()); n != "" {
+				st.Mutate(c07XRGVK.GroupKind(), "", n, c07DropNullSpec)
 			}
 			post := peekClaim()
 			step := c07Step{Err: c07ErrClass(err), Writes: writes, Claim: post, XR: peekXR(c07XRNameOf(post))}
